@@ -323,6 +323,10 @@ func checkToken(c TokenCase, u *vf.Unit) *vf.Verdict {
 				}
 				return nil
 			}
+			if oversized && err != nil {
+				u.Class("auth-oversized-cid-rejected") // a connection ID longer than 20 bytes cannot be represented: an error is the right answer
+				return nil
+			}
 			if err != nil || tok == nil {
 				return bad("token", "roundtrip-rejected", "authentic token with body %+v rejected: %v", c.Auth, err)
 			}
@@ -332,7 +336,7 @@ func checkToken(c TokenCase, u *vf.Unit) *vf.Verdict {
 			u.Class("auth-decoded")
 			return nil
 		})
-		if isCIDPanic(v) && (oversized || len(c.Data) != 0) && !strict() {
+		if isCIDPanic(v) && (oversized || len(c.Data) != 0) && (!strict() || u.KnownHit("C08/token/authentic-oversized-cid-panic")) {
 			// An AUTHENTIC Retry token (sealed with the server's own key) that carries a connection ID
 			// longer than 20 bytes makes DecodeToken panic in protocol.ParseConnectionID. Only the holder
 			// of the token key can produce it, so it is not attacker-reachable; recorded in NOTES.md and
